@@ -1,1 +1,61 @@
-//! C17 — (harnesses not written yet)
+//! C17 — memory requested while reading is proportional to the input size.
+//!
+//! The C07 harnesses re-run with the allocation bound switched on in the `Vec::with_capacity`
+//! model (env::with_capacity_model_bounded): every pre-sizing request made while decoding must stay
+//! below 64 x (input bytes) + 4096. Growth by `push` is amortised (at most 2x the bytes
+//! actually read: std's contract, an assumption here).
+use crate::c07::*;
+use crate::env::*;
+use crate::model::*;
+use crate::refcodec::*;
+use shapefile::record::{ConcreteReadableShape, ReadableShape, WritableShape};
+use shapefile::*;
+
+macro_rules! alloc {
+    ($name:ident, $T:ty, $B:expr, $code:expr, $uw:expr) => {
+        #[kani::proof]
+        #[kani::unwind($uw)]
+        #[kani::stub(std::vec::Vec::with_capacity, crate::env::with_capacity_model_bounded)]
+        fn $name() {
+            decode_any::<$T, $B>($code, true);
+        }
+    };
+}
+// H: tier=quick; unwind=12; sym=record_size: i32 (all values), 72 content bytes incl. the point count; call=Multipoint::read_from; asserts=every Vec::with_capacity request <= 64 x 72 + 4096 bytes (counts consistent with a huge declared record size must not pre-size a vector)
+alloc!(c17_q_alloc_multipoint, Multipoint, 72, T_MULTIPOINT, 12);
+// H: tier=quick; unwind=20; sym=record_size: i32, 104 content bytes; call=MultipointM::read_from; asserts=as above
+alloc!(c17_q_alloc_multipointm, MultipointM, 104, T_MULTIPOINTM, 20);
+// H: tier=thorough; unwind=24; sym=record_size: i32, 120 content bytes; call=MultipointZ::read_from; asserts=as above
+alloc!(c17_t_alloc_multipointz, MultipointZ, 120, T_MULTIPOINTZ, 24);
+
+macro_rules! alloc_off {
+    ($name:ident, $T:ty, $B:expr, $uw:expr) => {
+        #[kani::proof]
+        #[kani::unwind($uw)]
+        #[kani::stub(std::vec::Vec::with_capacity, crate::env::with_capacity_model_bounded)]
+        fn $name() {
+            decode_offsets_any::<$T, $B>(true);
+        }
+    };
+}
+// H: tier=quick; unwind=5; sym=2 part offsets (any i32) and payload of a Polyline record with concrete counts (2 parts, 2 points); asserts=per-part vectors are pre-sized from offset differences: every request <= 64 x record bytes + 4096
+alloc_off!(c17_q_alloc_polyline_offsets, Polyline, 84, 5);
+// H: tier=thorough; unwind=9; sym=2 part offsets, patch kinds and payload of a Multipatch record with concrete counts; asserts=as above
+alloc_off!(c17_t_alloc_multipatch_offsets, Multipatch, 156, 9);
+
+// H: tier=quick; unwind=22; sym=116 index bytes behind a valid file code (length field arbitrary), arbitrary .shp header; call=ShapeReader::with_shx; asserts=the index vector is not pre-sized beyond 64 x 216 + 4096 bytes from the declared length
+#[kani::proof]
+#[kani::unwind(22)]
+#[kani::stub(std::vec::Vec::with_capacity, crate::env::with_capacity_model_bounded)]
+fn c17_q_alloc_open_with_index() {
+    let mut shx: [u8; 116] = kani::any();
+    put_i32_be(&mut shx, 0, 9994);
+    put_i32_le(&mut shx, 32, 1);
+    let mut shp: [u8; 100] = kani::any();
+    put_i32_be(&mut shp, 0, 9994);
+    put_i32_le(&mut shp, 32, 1);
+    let rd = ShapeReader::with_shx(MemSource::new(&shp), MemSource::new(&shx));
+    kani::cover!(rd.is_ok());
+    kani::cover!(rd.is_err());
+    std::mem::forget(rd);
+}
